@@ -28,12 +28,15 @@ int sbdf_cm_set_values(char const* column_name, sbdf_valuetype data_type, sbdf_m
 	error = sbdf_valuetype_to_object(data_type, &obj);
 	if (error)
 	{
+		/* all or nothing: take the name back */
+		sbdf_md_remove(SBDF_COLUMNMETADATA_NAME, out);
 		return error;
 	}
 
 	error = sbdf_md_add(SBDF_COLUMNMETADATA_DATATYPE, obj, 0, out);
 	if (error)
 	{
+		sbdf_md_remove(SBDF_COLUMNMETADATA_NAME, out);
 		sbdf_obj_destroy(obj);
 		return error;
 	}
@@ -95,6 +98,11 @@ int sbdf_cm_get_name(sbdf_metadata_head* inp, char** out)
 	*out = sbdf_str_copy(*(char**)obj->data);
 
 	sbdf_obj_destroy(obj);
+
+	if (!*out)
+	{
+		return SBDF_ERROR_OUT_OF_MEMORY;
+	}
 
 	return SBDF_OK;
 }
